@@ -29,6 +29,7 @@ TIE_MODULES = ["StathamModel.Tie"]
 ASSUMPTIONS = ["checkers are total predicates returning bool (a checker that raises propagates its exception: outside the property)",
                "the built-in uuid / date-time checkers are external library calls: their clause is explored from the grammars, not proved"]
 N_HIST = {"quick": 400, "thorough": 15000}
+N_OVERLAP = {"quick": 150, "thorough": 4000}
 
 NAMES = ["custom", "Custom", "CUSTOM", "email", "e-mail", "", " ", "uuid", "UUID", "Uuid", "date-time", "Date-Time", "date_time", "datetime",
          "uuid ", "ipv4", "x" * 40, "é", "É", "ß", "SS", "ss", "ſ", "K", "K", "k",
@@ -125,6 +126,39 @@ def make_element(kind, name):
     return parse_element({"format": name})
 
 
+def judge(kind, name, value, res, calls, current, saved):
+    """The oracle for ONE check, whatever else is going on around it (other checks in flight in this or another thread
+    included - the statement makes no exception for them).  `calls`: the (ident, value, result) calls to logged checkers
+    made directly by this check; `current`: name -> (ident, fn | None for a built-in entry) as the history has left it.
+    Returns (category, [what failed])."""
+    whats = []
+    if not isinstance(value, str):
+        if kind in ("Element", "parse-any") and res != "accept":
+            whats.append(f"non-string {value!r} under format {name!r}: {res}")
+        if calls:
+            whats.append(f"non-string {value!r} was handed to a checker")
+        return "non-string", whats
+    if name not in current:
+        if res != "accept-warn":
+            whats.append(f"unregistered format {name!r} on {value!r}: {res} (expected acceptance with a warning)")
+        if calls:
+            whats.append(f"unregistered format {name!r} consulted checker {calls[0][0]}")
+        return "unregistered", whats
+    ident, fn = current[name]
+    if fn is None:      # built-in entry: decided by the library definition
+        want = "accept" if {"uuid": lib_uuid, "date-time": lib_datetime}.get(name, saved.get(name))(value) else "reject"
+        if res != want:
+            whats.append(f"built-in {name!r} on {value!r}: {res}, the library definition says {want}")
+        return "registered-builtin", whats
+    if len(calls) != 1 or calls[0][0] != ident or calls[0][1] != value:
+        whats.append(f"format {name!r} on {value!r}: expected exactly one call to the current checker {ident}, saw {[(c[0], c[1]) for c in calls]}")
+        return "registered-custom", whats
+    want = "accept" if calls[0][2] else "reject"
+    if res != want:
+        whats.append(f"checker {ident} returned {calls[0][2]} for {value!r} but the verdict is {res}")
+    return "registered-custom", whats
+
+
 def run_history(drv, steps, out, stats, label):
     """steps: list of ("register", name, pred_id | "flip") / ("check", kind, name, value)."""
     reg = format_checker._callable_register  # pylint: disable=protected-access
@@ -172,34 +206,10 @@ def run_history(drv, steps, out, stats, label):
             out.note_case({"step": idx, **case}, nontrivial)
             stats[res] = stats.get(res, 0) + 1
             # --- the oracle
-            where = {"case": case, "at_step": idx}
-            if not isinstance(value, str):
-                stats["non-string"] = stats.get("non-string", 0) + 1
-                if kind in ("Element", "parse-any") and res != "accept":
-                    out.failures.append({**where, "what": f"non-string {value!r} under format {name!r}: {res}", "finding": None})
-                if calls:
-                    out.failures.append({**where, "what": f"non-string {value!r} was handed to a checker", "finding": None})
-                continue
-            if name not in current:
-                stats["unregistered"] = stats.get("unregistered", 0) + 1
-                if res != "accept-warn":
-                    out.failures.append({**where, "what": f"unregistered format {name!r} on {value!r}: {res} (expected acceptance with a warning)", "finding": None})
-                if calls:
-                    out.failures.append({**where, "what": f"unregistered format {name!r} consulted checker {calls[0][0]}", "finding": None})
-                continue
-            ident, fn = current[name]
-            if fn is None:      # built-in entry: decided by the library definition
-                want = "accept" if {"uuid": lib_uuid, "date-time": lib_datetime}.get(name, saved.get(name))(value) else "reject"
-                if res != want:
-                    out.failures.append({**where, "what": f"built-in {name!r} on {value!r}: {res}, the library definition says {want}", "finding": None})
-                continue
-            stats["registered-custom"] = stats.get("registered-custom", 0) + 1
-            if len(calls) != 1 or calls[0][0] != ident or calls[0][1] != value:
-                out.failures.append({**where, "what": f"format {name!r} on {value!r}: expected exactly one call to the current checker {ident}, saw {[(c[0], c[1]) for c in calls]}", "finding": None})
-                continue
-            want = "accept" if calls[0][2] else "reject"
-            if res != want:
-                out.failures.append({**where, "what": f"checker {ident} returned {calls[0][2]} for {value!r} but the verdict is {res}", "finding": None})
+            cat, whats = judge(kind, name, value, res, calls, current, saved)
+            stats[cat] = stats.get(cat, 0) + 1
+            for what in whats:
+                out.failures.append({"case": case, "at_step": idx, "what": what, "finding": None})
         # --- the model, on histories with pure checkers only
         if pure and drv is not None:
             rep = drv.ask({"op": "format_history", "checkers": [[k, v] for k, v in checkers.items()],
@@ -244,6 +254,259 @@ def fresh_process_history(steps, out, stats, label):
     for f in rep["failures"]:
         f["case"]["fresh_process"] = True
         out.failures.append(f)
+
+
+# ---- checks that overlap in time: a check that begins while another check is still in flight (in the same thread, because
+# ---- the checker itself validates something against a format; or in another thread).  The statement quantifies over all
+# ---- values and histories and knows no exception for them: each such check must consult the checker registered under its
+# ---- name exactly as a check made in isolation does.
+
+NEST_STRINGS = ["a.b", "a.b.c", "a.1", "a.b.1", "x.", "a..b", "1.a", "aa", "aaa", "abca", "a12", "11a", "Ab.a", ".",
+                "00000000-0000-0000-0000-000000000000.a", "a.2020-01-01T00:00:00Z"]
+HOWS = ["tail", "after-dot", "half", "length"]
+COMBINES = ["and", "lazy-and", "ignore", "only"]
+HOLD_TIMEOUT = 5.0
+
+
+def derive(how, value):
+    """The value a nesting checker validates while it is running: always strictly shorter than `value` (so every nest
+    terminates, whatever the checkers involved), or a non-string; None = no nested check for this value."""
+    if how == "tail":
+        return value[1:] if value else None
+    if how == "after-dot":
+        head, dot, tail = value.partition(".")
+        return tail if dot else None
+    if how == "half":
+        return value[:len(value) // 2] if value else None
+    return len(value) if value else None        # "length": a non-string
+
+
+class Trace:
+    """Attributes every checker call to the check that made it: a per-thread stack of the checks in flight."""
+
+    def __init__(self):
+        import threading
+        self.threading = threading
+        self.local = threading.local()
+        self.lock = threading.Lock()
+        self.records = []
+        self.in_flight = []
+        self.orphans = []
+        self.hold = None
+
+    def stack(self):
+        if not hasattr(self.local, "stack"):
+            self.local.stack = []
+        return self.local.stack
+
+    def check(self, kind, name, value):
+        stack = self.stack()
+        rec = {"kind": kind, "name": name, "value": value, "calls": [], "depth": len(stack), "res": None,
+               "thread": self.threading.current_thread().name}
+        with self.lock:
+            rec["in_flight"] = [[r["name"], r["thread"]] for r in self.in_flight]
+            self.records.append(rec)
+            self.in_flight.append(rec)
+        stack.append(rec)
+        try:
+            rec["res"] = observe(make_element(kind, name), value)
+        finally:
+            stack.pop()
+            with self.lock:
+                self.in_flight.remove(rec)
+        return rec["res"]
+
+    def entered(self, ident, value):
+        """A logged checker has been called: note it under the innermost check in flight in this thread, and block here if
+        this is the call a concurrent step wants to keep in flight."""
+        call = [ident, value, None]
+        stack = self.stack()
+        (stack[-1]["calls"] if stack else self.orphans).append(call)
+        hold = self.hold
+        if hold is not None and hold["thread"] is self.threading.current_thread():
+            hold["seen"] += 1
+            if hold["seen"] == hold["at"] + 1:
+                hold["held"] = True
+                hold["ready"].set()
+                hold["release"].wait(HOLD_TIMEOUT)
+        return call
+
+
+def nesting_checker(trace, ident, base, nest):
+    """base(value), combined with the verdict of a nested check `nest` = (target name, element kind, how, combine) made
+    while this checker is still running."""
+    def checker(value):
+        call = trace.entered(ident, value)
+        res = bool(base(value))
+        if nest is not None:
+            target, kind, how, combine = nest
+            inner = derive(how, value) if (res or combine != "lazy-and") else None
+            if inner is not None:
+                ok = trace.check(kind, target, inner) != "reject"
+                res = {"and": res and ok, "lazy-and": res and ok, "ignore": res, "only": ok}[combine]
+        call[2] = res
+        return res
+    return checker
+
+
+def run_overlap_history(steps, out, stats, label):
+    """steps: ("register", name, pid) / ("register-nest", name, pid, target, kind, how, combine) / ("check", kind, name, value)
+    / ("concurrent", [kind, name, value], [[kind, name, value], ...], hold_at): the first check runs in a second thread
+    and is kept in flight inside its hold_at-th checker call while the others are made from this thread.
+    The whole history runs under a watchdog: a check that never returns is a failure, not a hang of the harness."""
+    import threading
+    reg = format_checker._callable_register  # pylint: disable=protected-access
+    saved = dict(reg)
+    case = {"label": label, "overlap": True, "steps": [list(s) for s in steps]}
+    failures, notes, local_stats = [], [], {}
+
+    def bump(key, n=1):
+        local_stats[key] = local_stats.get(key, 0) + n
+
+    def body():
+        trace = Trace()
+        current = {nm: ("builtin:" + nm, None) for nm in reg}
+        judged = 0
+        for idx, st in enumerate(steps):
+            if st[0] in ("register", "register-nest"):
+                name, pid = st[1], st[2]
+                base = Flip() if pid == "flip" else PREDICATES[pid]
+                nest = tuple(st[3:7]) if st[0] == "register-nest" else None
+                ident = f"{pid}#{idx}"
+                fn = nesting_checker(trace, ident, base, nest)
+                format_checker.register(name)(fn)
+                current[name] = (ident, fn)
+                bump(st[0])
+                continue
+            if st[0] == "check":
+                trace.check(st[1], st[2], st[3])
+            else:
+                _, holder, inner, hold_at = st
+                bump("concurrent-steps")
+                hold = {"thread": None, "at": hold_at, "seen": 0, "held": False, "ready": threading.Event(), "release": threading.Event()}
+
+                def helper(holder=holder, hold=hold):
+                    try:
+                        trace.check(*holder)
+                    finally:
+                        hold["ready"].set()
+                thread = threading.Thread(target=helper, name="second", daemon=True)
+                hold["thread"] = thread
+                trace.hold = hold
+                thread.start()
+                try:
+                    hold["ready"].wait(2 * HOLD_TIMEOUT)
+                    if hold["held"] and thread.is_alive():
+                        bump("concurrent-overlap-achieved")
+                    for chk in inner:
+                        trace.check(*chk)
+                finally:
+                    hold["release"].set()
+                    thread.join(4 * HOLD_TIMEOUT)
+                    trace.hold = None
+                if thread.is_alive():
+                    failures.append({"case": case, "at_step": idx, "what": f"the check of {holder[2]!r} under format {holder[1]!r} in a second thread never returned", "finding": None})
+            # --- the oracle, on every check this step has made (the nested and the concurrent ones included)
+            recs, judged = trace.records[judged:], len(trace.records)
+            for k, rec in enumerate(recs):
+                cat, whats = judge(rec["kind"], rec["name"], rec["value"], rec["res"], [tuple(c) for c in rec["calls"]], current, saved)
+                bump("overlap-" + cat)
+                bump("overlap-" + str(rec["res"]))
+                same = [x for x in rec["in_flight"] if x[0] == rec["name"]]
+                if rec["depth"]:
+                    bump("nested-checks")
+                    bump("nested-same-name" if any(x[1] == rec["thread"] for x in same) else "nested-other-name")
+                    local_stats["max-nesting-depth"] = max(local_stats.get("max-nesting-depth", 0), rec["depth"])
+                if any(x[1] != rec["thread"] for x in rec["in_flight"]):
+                    bump("begun-while-another-thread-checks-" + ("same-name" if any(x[1] != rec["thread"] for x in same) else "other-name"))
+                if rec["in_flight"]:
+                    bump("begun-in-flight-" + cat)
+                overlapping = bool(rec["in_flight"]) or len(recs) > 1
+                notes.append(({"step": idx, "check": k, **case}, overlapping and cat == "registered-custom"))
+                for what in whats:
+                    failures.append({"case": case, "at_step": idx,
+                                     "check": {"name": rec["name"], "value": rec["value"], "kind": rec["kind"], "nesting_depth": rec["depth"],
+                                               "thread": rec["thread"], "in_flight_when_begun": rec["in_flight"]},
+                                     "what": what + (f" [begun while checks of {[x[0] for x in rec['in_flight']]} were in flight]" if rec["in_flight"] else ""),
+                                     "finding": None})
+            if trace.orphans:
+                failures.append({"case": case, "at_step": idx, "what": f"a checker was called outside any check: {trace.orphans[:3]}", "finding": None})
+                del trace.orphans[:]
+
+    try:
+        worker = threading.Thread(target=body, name="first", daemon=True)
+        worker.start()
+        worker.join(12 * HOLD_TIMEOUT)
+        if worker.is_alive():
+            failures.append({"case": case, "what": "the history did not finish: a check blocks for ever", "finding": None})
+    finally:
+        reg.clear()
+        reg.update(saved)
+    stats["overlap-histories"] = stats.get("overlap-histories", 0) + 1
+    for key, n in list(local_stats.items()):
+        stats[key] = max(stats.get(key, 0), n) if key.startswith("max-") else stats.get(key, 0) + n
+    for noted, nontrivial in list(notes):
+        out.note_case(noted, nontrivial)
+    out.failures.extend(list(failures))
+
+
+def random_overlap_history(rng, n_steps):
+    names = rng.sample(NAMES, rng.randint(2, 4))
+
+    def a_nest():
+        name = rng.choice(names)
+        r = rng.random()
+        target = name if r < 0.5 else rng.choice(names) if r < 0.85 else rng.choice(NAMES)
+        how = rng.choice(HOWS)
+        kind = rng.choice(["Element", "parse-any"] if how == "length" else ["String", "Element", "parse-string", "parse-any"])
+        pid = rng.choice(list(PREDICATES) + (["flip"] if rng.random() < 0.15 else []))
+        return ("register-nest", name, pid, target, kind, how, rng.choice(COMBINES))
+
+    def a_check():
+        value = rng.choice(STRINGS + NEST_STRINGS + NEST_STRINGS) if rng.random() < 0.85 else rng.choice(NON_STRINGS)
+        name = rng.choice(names) if rng.random() < 0.9 else rng.choice(NAMES)
+        kinds = ["String", "Element", "parse-string", "parse-any"] if isinstance(value, str) else ["Element", "parse-any"]
+        return ("check", rng.choice(kinds), name, value)
+
+    steps = [a_nest() for _ in range(rng.randint(1, 2))]
+    for _ in range(n_steps):
+        r = rng.random()
+        if r < 0.12:
+            steps.append(("register", rng.choice(names), rng.choice(list(PREDICATES))))
+        elif r < 0.3:
+            steps.append(a_nest())
+        elif r < 0.8:
+            steps.append(a_check())
+        else:
+            holder = a_check()
+            for _ in range(3):      # mostly a check that does reach a checker, so that there is a call to hold it in
+                if isinstance(holder[3], str) and any(s[0] != "check" and s[1] == holder[2] for s in steps):
+                    break
+                holder = a_check()
+            steps.append(("concurrent", list(holder[1:]), [list(a_check()[1:]) for _ in range(rng.randint(1, 4))], rng.choice([0, 0, 1, 2])))
+    return steps
+
+
+OVERLAP_FIXED = [
+    # a checker defined by recursion on a strictly shorter string under its own name
+    [("register-nest", "custom", "starts-a", "custom", "String", "after-dot", "and"), ("check", "String", "custom", "a.a"), ("check", "String", "custom", "a.b"),
+     ("check", "Element", "custom", "a.a.1"), ("check", "parse-string", "custom", "a")],
+    [("register-nest", "custom", "nonempty", "custom", "Element", "tail", "lazy-and"), ("check", "String", "custom", "abc"), ("check", "String", "custom", "")],
+    # two names defined in terms of each other; a name defined in terms of a built-in, of an unregistered name, of a non-string
+    [("register-nest", "custom", "short", "email", "String", "tail", "and"), ("register-nest", "email", "nonempty", "custom", "parse-any", "half", "only"),
+     ("check", "String", "custom", "ab"), ("check", "String", "email", "abca")],
+    [("register-nest", "custom", "yes", "uuid", "String", "after-dot", "only"), ("check", "String", "custom", "a.00000000-0000-0000-0000-000000000000"),
+     ("check", "String", "custom", "a.not-a-uuid"), ("register-nest", "email", "yes", "never-registered", "Element", "tail", "only"), ("check", "String", "email", "ab"),
+     ("register-nest", "ipv4", "no", "ipv4", "Element", "length", "only"), ("check", "String", "ipv4", "ab")],
+    # re-registration between nests: the nested check consults the checker registered now
+    [("register-nest", "custom", "yes", "email", "String", "tail", "only"), ("register", "email", "no"), ("check", "String", "custom", "ab"),
+     ("register", "email", "yes"), ("check", "String", "custom", "ab"), ("register-nest", "email", "digits", "email", "String", "tail", "ignore"), ("check", "String", "custom", "a12")],
+    # two threads: the same name, different names, a nest held in its inner call
+    [("register", "custom", "digits"), ("concurrent", ["String", "custom", "abc"], [["String", "custom", "abc"], ["String", "custom", "123"], ["Element", "custom", 1]], 0)],
+    [("register", "custom", "digits"), ("register", "email", "no"), ("concurrent", ["String", "custom", "123"], [["String", "email", "abc"], ["String", "uuid", "not-a-uuid"], ["String", "never-registered", "x"]], 0)],
+    [("register-nest", "custom", "yes", "email", "String", "tail", "and"), ("register", "email", "short"),
+     ("concurrent", ["String", "custom", "abcd"], [["String", "email", "abcd"], ["String", "custom", "abcd"], ["String", "email", "a"]], 1)],
+]
 
 
 def random_history(rng, n_steps):
@@ -332,7 +595,12 @@ def run(ctx, scale=1.0):
                 "30% registrations (re-registrations included), 70% checks of 20 strings / 12 non-strings through String(format=), Element(format=), "
                 "and parsed schemas; a case is one check with its history; non-trivial = a string checked under a name with a custom checker "
                 "registered; plus canonical UUIDs (lower/upper/mixed, nil, max) and RFC 3339 timestamps from the grammar (years 0000-9999, leap "
-                "seconds, fractions of 1-12 digits, T/t, Z/z, numeric offsets); distinct by SHA-256")
+                "seconds, fractions of 1-12 digits, T/t, Z/z, numeric offsets); plus histories of 4-16 steps whose checks overlap in time: checkers that, "
+                "while running, validate a strictly shorter part of their input (tail / after the first dot / first half) or its length against "
+                "their own name, another registered name, a built-in or an unregistered name (verdict combined by and / lazy and / ignored / "
+                "passed through), and steps where one check is held inside its 1st-3rd checker call in a second thread while 1-4 checks are made "
+                "from the first; every check made (nested and concurrent ones included) is judged by the same oracle; there a case is one check "
+                "with its history, non-trivial = overlapping with another check and under a custom checker; distinct by SHA-256")
     stats = {}
     drv = core.Driver()
     try:
@@ -369,6 +637,11 @@ def run(ctx, scale=1.0):
             steps = random_history(rng, rng.randint(4, 10))
             fresh_process_history([("register", rng.choice(["uuid", "date-time"]), rng.choice(["yes", "no", "digits"]))] + steps, out, stats, f"fresh-random-{k}")
         check_builtins(rng, int((4000 if ctx["tier"] == "quick" else 200000) * scale), out, stats)
+        # checks that begin while another check is in flight (nesting checkers, a second thread)
+        for k, steps in enumerate(OVERLAP_FIXED):
+            run_overlap_history(steps, out, stats, f"overlap-fixed-{k}")
+        for k in range(int(N_OVERLAP[ctx["tier"]] * scale)):
+            run_overlap_history(random_overlap_history(rng, rng.randint(3, 14)), out, stats, f"overlap-random-{k}")
     finally:
         drv.close()
     out.stats = stats
@@ -388,6 +661,9 @@ def _replay_case(case):
     if "builtin" in case:
         res = observe(String(format=case["builtin"]), case["value"])
         return res != "accept"
+    if case.get("overlap"):
+        run_overlap_history([tuple(s) for s in case["steps"]], out, stats, case.get("label", "replay"))
+        return bool(out.failures)
     if case.get("fresh_process"):
         fresh_process_history([tuple(s) for s in case["steps"]], out, stats, case.get("label", "replay"))
         return bool(out.failures)
